@@ -16,6 +16,8 @@ def registered_classes():
         reg = ox.element_class_lookup.get_namespace(uri)
         for local, cls in reg.items():
             if local is not None:
+                if isinstance(local, bytes):
+                    local = local.decode()
                 out["{%s}%s" % (uri, local)] = cls
     return out
 
